@@ -159,6 +159,8 @@ func (g *Gateway) introspectSchema(schema *introspection.Schema, selectionSet as
 
 	for _, field := range graphql.SelectedFields(selectionSet) {
 		switch field.Name {
+		case "__typename":
+			result[field.Alias] = "__Schema"
 		case "types":
 			result[field.Alias] = g.introspectTypeSlice(schema.Types(), field.SelectionSet)
 		case "queryType":
@@ -191,6 +193,8 @@ func (g *Gateway) introspectType(schemaType *introspection.Type, selectionSet as
 		}
 
 		switch field.Name {
+		case "__typename":
+			result[field.Alias] = "__Type"
 		case introspectKind:
 			result[field.Alias] = schemaType.Kind()
 		case introspectName:
@@ -220,6 +224,8 @@ func (g *Gateway) introspectField(fieldDef introspection.Field, selectionSet ast
 
 	for _, field := range graphql.SelectedFields(selectionSet) {
 		switch field.Name {
+		case "__typename":
+			result[field.Alias] = "__Field"
 		case introspectName:
 			result[field.Alias] = fieldDef.Name
 		case introspectDescription:
@@ -243,6 +249,8 @@ func (g *Gateway) introspectEnumValue(definition *introspection.EnumValue, selec
 
 	for _, field := range graphql.SelectedFields(selectionSet) {
 		switch field.Name {
+		case "__typename":
+			result[field.Alias] = "__EnumValue"
 		case introspectName:
 			result[field.Alias] = definition.Name
 		case introspectDescription:
@@ -263,6 +271,8 @@ func (g *Gateway) introspectDirective(directive introspection.Directive, selecti
 
 	for _, field := range graphql.SelectedFields(selectionSet) {
 		switch field.Name {
+		case "__typename":
+			result[field.Alias] = "__Directive"
 		case introspectName:
 			result[field.Alias] = directive.Name
 		case introspectDescription:
@@ -282,6 +292,8 @@ func (g *Gateway) introspectInputValue(iv *introspection.InputValue, selectionSe
 
 	for _, field := range graphql.SelectedFields(selectionSet) {
 		switch field.Name {
+		case "__typename":
+			result[field.Alias] = "__InputValue"
 		case introspectName:
 			result[field.Alias] = iv.Name
 		case introspectDescription:
